@@ -278,3 +278,369 @@ def pytest_sessionfinish(session, exitstatus):
     if OUT:
         with open(OUT, 'w') as f:
             json.dump(_RESULTS, f)
+
+
+# =====================================================================================================
+# World recorder: the repository's TestWorld tests -> traces for WorldTrace.tla (one constant set per test)
+
+OUTW = os.environ.get('VERIF_TRACE_OUT_WORLD')
+
+
+class WRec:
+    def __init__(self):
+        self.reset(None)
+
+    def reset(self, test):
+        self.test = test
+        self.world = None
+        self.unsupported = None
+        self.depth = 0
+        self.events = []
+        self.log = []
+        self.comps = {}        # id(obj) -> name
+        self.cobj = {}         # name -> obj (strong: the test's objects live as long as the test anyway)
+        self.procs = {}
+        self.pobj = {}
+        self.types = {}        # class -> name   (component classes)
+        self.ptypes = {}
+        self.ents = {}         # real id -> model int
+        self.prios = set()
+        self.dts = set()
+        self.patched = set()
+
+    def bad(self, why):
+        if self.unsupported is None:
+            self.unsupported = why
+
+    def ent(self, e):
+        if isinstance(e, int) and not isinstance(e, bool) and 0 < e < 100:
+            self.ents.setdefault(e, e)
+            return e
+        if e not in self.ents:
+            self.ents[e] = 100 + len([v for v in self.ents.values() if v >= 100]) + 1
+        return self.ents[e]
+
+    def tname(self, cls, table):
+        if cls not in table:
+            n = cls.__name__
+            while n in table.values():
+                n += '_'
+            table[cls] = n
+        return table[cls]
+
+    def comp(self, obj):
+        k = id(obj)
+        if k in self.comps and self.cobj[self.comps[k]] is obj:
+            return self.comps[k]
+        n = 'c%d' % (len(self.cobj) + 1)
+        self.comps[k] = n
+        self.cobj[n] = obj
+        self.tname(type(obj), self.types)
+        ev = getattr(obj, '__events__', None)
+        if isinstance(ev, dict):
+            self.patch(type(obj), ev, False)
+        return n
+
+    def proc(self, obj):
+        k = id(obj)
+        if k in self.procs and self.pobj[self.procs[k]] is obj:
+            return self.procs[k]
+        n = 'p%d' % (len(self.pobj) + 1)
+        self.procs[k] = n
+        self.pobj[n] = obj
+        self.tname(type(obj), self.ptypes)
+        ev = getattr(obj, '__events__', None)
+        self.patch(type(obj), ev if isinstance(ev, dict) else {}, True)
+        return n
+
+    def patch(self, cls, events, is_proc):
+        todo = [(e, m) for e, m in events.items() if e in ('on_add', 'on_remove')]
+        if is_proc:
+            todo.append(('process', 'process'))
+        for ev_name, meth in todo:
+            for k in cls.__mro__:
+                if meth in k.__dict__ and callable(k.__dict__[meth]):
+                    f = k.__dict__[meth]
+                    if (k, meth) in self.patched or getattr(f, '_verif_w', None):
+                        # one function may serve several events only if it is the same event
+                        if getattr(f, '_verif_w', ev_name) != ev_name:
+                            self.bad('one method mapped to two lifecycle events')
+                        break
+                    self.patched.add((k, meth))
+
+                    def make(f, ev_name):
+                        @functools.wraps(f)
+                        def wrapper(self_, *a, **kw):
+                            if W.test is not None and W.world is not None and W.depth > 0:
+                                if ev_name == 'process':
+                                    dt = a[0] if a else kw.get('dt', 1)
+                                    W.log.append(['process', W.procs.get(id(self_), '?'), dt])
+                                elif id(self_) in W.procs and W.pobj[W.procs[id(self_)]] is self_:
+                                    W.log.append([ev_name, W.procs[id(self_)], -1])
+                                else:
+                                    ent = W.ent(a[0]) if a else -1
+                                    ok = len(a) > 1 and a[1] is W.world
+                                    W.log.append([ev_name, W.comps.get(id(self_), '?'), ent] + ([] if ok else ['WRONGWORLD']))
+                            return f(self_, *a, **kw)
+                        wrapper._verif_w = ev_name
+                        return wrapper
+                    setattr(k, meth, make(f, ev_name))
+                    break
+
+
+W = WRec()
+_worig = {}
+
+
+def _wobserve(w):
+    comps = {}
+    for e, row in w._entities.items():
+        comps[W.ent(e)] = sorted(W.comp(c) for c in row.values())
+    all_e = sorted(set(W.ents.values()))
+    is_h = sorted([n for n, o in W.cobj.items() if hasattr(o, '__events__') and _orig_is_handler(w, o)] +
+                  [n for n, o in W.pobj.items() if hasattr(o, '__events__') and _orig_is_handler(w, o)])
+    return {'comps': [[e, comps.get(e, [])] for e in all_e],
+            'exists': [[e, (e in comps) and (_real(e) not in w._dead_entities)] for e in all_e],
+            'entities': sorted(e for e in comps if _real(e) not in w._dead_entities),
+            'is_handler': is_h, 'enabled': w._dispatch_enabled,
+            'processors': [W.proc(p) for p in w._sorted_processors],
+            'pprio': [[n, o.priority] for n, o in sorted(W.pobj.items())],
+            'qlen': len(w._event_queue)}
+
+
+def _real(me):
+    for r, m in W.ents.items():
+        if m == me:
+            return r
+    return me
+
+
+def _orig_is_handler(w, o):
+    import weakref as _w
+    try:
+        return _w.ref(o) in w._handlers
+    except TypeError:
+        return False
+
+
+def _wcall(op, a1, a2, a3, w, call, ret_of=None):
+    if W.world is None:
+        W.world = w
+    elif W.world is not w:
+        W.bad('more than one World in one test')
+    if W.depth:
+        W.depth += 1
+        try:
+            return call()
+        finally:
+            W.depth -= 1
+    W.log = []
+    ret = ['ok', 0, '-']
+    W.depth += 1
+    try:
+        r = call()
+        if ret_of:
+            ret = ret_of(r)
+        return r
+    except BaseException as ex:
+        ret = [type(ex).__name__, 0, '-']
+        raise
+    finally:
+        W.depth -= 1
+        ev = {'op': op, 'a1': a1, 'a2': a2, 'a3': a3, 'ret': ret, 'log': [list(x) for x in W.log]}
+        try:
+            ev.update(_wobserve(w))
+        except Exception as ex:       # noqa
+            W.bad('observation failed: %r' % (ex,))
+        W.events.append(ev)
+
+
+def install_world():
+    import desper
+    Wd = desper.World
+    ED = desper.EventDispatcher
+    for m in ('create_entity', 'add_component', 'remove_component', 'delete_entity', 'add_processor', 'remove_processor',
+              'process', 'clear', 'dispatch'):
+        _worig[m] = getattr(Wd, m)
+    cur_setter = ED.dispatch_enabled.fset
+    cur_getter = ED.dispatch_enabled.fget
+
+    def on(self):
+        return W.test is not None and type(self) is Wd
+
+    def create_entity(self, *components, entity_id=None):
+        if not on(self):
+            return _worig['create_entity'](self, *components, entity_id=entity_id)
+        cs = [W.comp(c) for c in components]
+        if len({type(c) for c in components}) != len(components):
+            W.bad('create_entity with two components of one type (outside the specification\'s domain)')
+        a1 = -1 if entity_id is None else W.ent(entity_id)
+        return _wcall('CreateEntity', a1, cs, '-', self, lambda: _worig['create_entity'](self, *components, entity_id=entity_id),
+                      lambda r: ['id', W.ent(r), '-'])
+
+    def add_component(self, entity, component):
+        if not on(self):
+            return _worig['add_component'](self, entity, component)
+        for e2, row in self._entities.items():
+            if e2 != entity and any(c is component for c in row.values()):
+                W.bad('one component instance attached to two entities (outside the specification\'s domain)')
+        return _wcall('AddComponent', W.ent(entity), W.comp(component), '-', self, lambda: _worig['add_component'](self, entity, component))
+
+    def remove_component(self, entity, component_type):
+        if not on(self):
+            return _worig['remove_component'](self, entity, component_type)
+        return _wcall('RemoveComponent', W.ent(entity), W.tname(component_type, W.types), '-', self,
+                      lambda: _worig['remove_component'](self, entity, component_type),
+                      lambda r: ['none', 0, '-'] if r is None else ['comp', 0, W.comp(r)])
+
+    def delete_entity(self, entity, immediate=False):
+        if not on(self):
+            return _worig['delete_entity'](self, entity, immediate)
+        return _wcall('DeleteImmediate' if immediate else 'DeleteDeferred', W.ent(entity), '-', '-', self,
+                      lambda: _worig['delete_entity'](self, entity, immediate))
+
+    def add_processor(self, processor, priority=None):
+        if not on(self):
+            return _worig['add_processor'](self, processor, priority)
+        if priority is not None:
+            W.prios.add(priority)
+        return _wcall('AddProcessor', W.proc(processor), 999 if priority is None else priority, '-', self,
+                      lambda: _worig['add_processor'](self, processor, priority))
+
+    def remove_processor(self, processor_type):
+        if not on(self):
+            return _worig['remove_processor'](self, processor_type)
+        return _wcall('RemoveProcessor', W.tname(processor_type, W.ptypes), '-', '-', self,
+                      lambda: _worig['remove_processor'](self, processor_type),
+                      lambda r: ['none', 0, '-'] if r is None else ['proc', 0, W.proc(r)])
+
+    def process(self, dt=1):
+        if not on(self):
+            return _worig['process'](self, dt)
+        if not (isinstance(dt, int) and not isinstance(dt, bool) and 0 <= dt < 1000):
+            W.bad('non-integer dt')
+        W.dts.add(dt)
+        return _wcall('Process', dt, '-', '-', self, lambda: _worig['process'](self, dt))
+
+    def clear(self):
+        if not on(self):
+            return _worig['clear'](self)
+        return _wcall('Clear', '-', '-', '-', self, lambda: _worig['clear'](self))
+
+    def dispatch(self, event_name, *args, **kwargs):
+        if on(self) and W.depth == 0 and event_name not in ('on_single_dispatch',):
+            W.bad('the test dispatches its own event %r on the world (not an action of World.tla)' % event_name)
+        return _worig['dispatch'](self, event_name, *args, **kwargs)
+
+    def setter(self, value):
+        if not on(self):
+            return cur_setter(self, value)
+        return _wcall('SetEnabled', bool(value), '-', '-', self, lambda: cur_setter(self, value))
+
+    Wd.create_entity, Wd.add_component, Wd.remove_component, Wd.delete_entity = create_entity, add_component, remove_component, delete_entity
+    Wd.add_processor, Wd.remove_processor, Wd.process, Wd.clear, Wd.dispatch = add_processor, remove_processor, process, clear, dispatch
+    ED.dispatch_enabled = property(cur_getter, setter)
+
+
+_WRESULTS = []
+
+
+def _constants():
+    """The constants of World.tla for this test, read off the objects the test used."""
+    import desper
+
+    def hier(table, stop):
+        names = dict(table)
+        for cls in list(table):
+            for b in cls.__mro__[1:]:
+                if b in stop:
+                    break
+                if b not in names:
+                    n = b.__name__
+                    while n in names.values():
+                        n += '_'
+                    names[b] = n
+        bases = {}
+        for cls, n in names.items():
+            bases[n] = sorted(names[b] for b in cls.__bases__ if b in names)
+        return names, bases
+
+    tn, tb = hier(W.types, (object,))
+    pn, pb = hier(W.ptypes, (desper.Processor, object))
+    W.types.update(tn)
+    W.ptypes.update(pn)
+
+    def decl(o):
+        ev = getattr(o, '__events__', None)
+        if not isinstance(ev, dict):
+            return []
+        d = sorted(e for e in ev if e in ('on_add', 'on_remove'))
+        # any other event a handler maps makes it a registered listener: "probe" stands for "some other event"
+        return d + (['probe'] if (set(ev) - {'on_add', 'on_remove'}) or not d else [])
+    has_other = any(set(getattr(o, '__events__', {}) or {}) - {'on_add', 'on_remove'} for o in list(W.cobj.values()) + list(W.pobj.values()))
+    K = {
+        'Ids': sorted(set(W.ents.values()) | {1}), 'MaxAuto': max([v for v in W.ents.values() if v < 100] + [1]) + 3,
+        'Types': sorted(tn.values()) or ['T0'], 'Bases': tb or {'T0': []},
+        'Comps': sorted(W.cobj), 'TypeOf': {n: tn[type(o)] for n, o in W.cobj.items()}, 'Decl': {n: decl(o) for n, o in W.cobj.items()},
+        'Procs': sorted(W.pobj), 'PTypes': sorted(pn.values()), 'PBases': pb,
+        'PTypeOf': {n: pn[type(o)] for n, o in W.pobj.items()},
+        'PDefault': {n: getattr(cls, 'priority', 0) for cls, n in pn.items()},
+        'PDecl': {n: decl(o) for n, o in W.pobj.items()},
+        'Prios': sorted(W.prios), 'Dts': sorted(W.dts) or [1],
+        # handlers of other events are registered like any handler; the model tells them apart only by the
+        # lifecycle callbacks they declare, "probe" stands for "some other event"
+        'handlers_of_other_events': has_other,
+    }
+    return K
+
+
+def _hook(fn):
+    try:
+        import pytest
+        return pytest.hookimpl(tryfirst=True)(fn)
+    except Exception:
+        return fn
+
+
+@_hook
+def pytest_runtest_call(item):
+    pass
+
+
+_prev_configure = pytest_configure
+_prev_setup = pytest_runtest_setup
+_prev_teardown = pytest_runtest_teardown
+_prev_finish = pytest_sessionfinish
+
+
+def pytest_configure(config):       # noqa: redefinition extends the dispatcher recorder's hook
+    _prev_configure(config)
+    if OUTW:
+        install_world()
+
+
+@_hook
+def pytest_runtest_setup(item):     # noqa
+    _prev_setup(item)
+    if OUTW:
+        W.reset(item.nodeid)
+
+
+def pytest_runtest_teardown(item, nextitem):    # noqa
+    _prev_teardown(item, nextitem)
+    if OUTW and W.test is not None:
+        if W.events or W.unsupported:
+            try:
+                K = _constants()
+            except Exception as ex:     # noqa
+                K = None
+                W.bad('constants: %r' % (ex,))
+            _WRESULTS.append({'test': W.test, 'unsupported': W.unsupported, 'constants': K, 'events': W.events})
+        W.reset(None)
+
+
+def pytest_sessionfinish(session, exitstatus):  # noqa
+    _prev_finish(session, exitstatus)
+    if OUTW:
+        with open(OUTW, 'w') as f:
+            json.dump(_WRESULTS, f, default=str)
